@@ -143,7 +143,8 @@ def h_checkpoint(e, cfg):
     if k == 0:
         run_step(e, cfg, A, e.sym((B, 3), torch.bool, "a_init", ind=True))      # shapes exist in the checkpoint as well
     from harness.common import witness_any
-    if cfg["layer"] == "recurrent" and k >= 2:
+    if cfg["layer"] == "recurrent" and k >= 2 and cfg["syn"] != "double" and cfg["delay"] is None:
+        # (with a double-exponential rise or delayed synapses no feedback spike can be pending after 2-4 steps: not demanded there)
         witness_any(e, "checkpoint:feedback-spikes-pending-at-the-checkpoint", A[0].feedback_spikes)
     snaps = [snapshot(A[0]), snapshot(A[1]) if A[1] is not None else None, snapshot(A[2]), snapshot(A[3])]
     Bm[0].load_state_dict(snaps[0])
